@@ -233,6 +233,30 @@ def parse_targets(M, mod):
     return res
 
 
+def parse_target_sets(M, mod):
+    """{entry point: set of grammar variables whose .parse() it (or a module function it calls) applies to the input}"""
+    res = {}
+    funcs = {n.split(".", 1)[1]: f for n, f in M.funcs.items() if f.mod == mod and f.cls is None}
+    for fname in ("decode_frame_content", "decode_notification_body"):
+        fn = funcs.get(fname)
+        if fn is None:
+            res[fname] = None
+            continue
+        tg, seen, work = set(), set(), [fn]
+        while work:
+            f = work.pop()
+            if f.name in seen:
+                continue
+            seen.add(f.name)
+            for n in ast.walk(f.node):
+                if isinstance(n, ast.Call) and isinstance(n.func, ast.Attribute) and n.func.attr == "parse" and isinstance(n.func.value, ast.Name):
+                    tg.add(n.func.value.id)
+                if isinstance(n, ast.Call) and isinstance(n.func, ast.Name) and n.func.id in funcs and not n.func.id.startswith("normalize") and not n.func.id.startswith("_normalize"):
+                    work.append(funcs[n.func.id])
+        res[fname] = tg
+    return res
+
+
 def obis_groups_field(M):
     """the field of Obis that holds the six value groups: the attribute the constructor assigns its parameter to"""
     c = M.classes.get(("obis", "Obis"))
